@@ -1,21 +1,40 @@
 #!/usr/bin/env python3
-"""tools/resolve_main.py: resolves the merge conflict every growth branch causes in lean/Main.lean (all branches add a handler to the
-same one-line list) and in lean/CnvVerif.lean (import lines): union of both sides, ours first."""
-import re, sys, os
+"""tools/resolve_main.py: resolves the merge conflict every growth branch causes in lean/Main.lean (all branches add an import and a
+handler to the same one-line list) and in lean/CnvVerif.lean (import lines). Main.lean is rebuilt from both sides (HEAD and
+MERGE_HEAD): imports = ours + theirs' new ones, handler list = ours + theirs' new ones, everything else ours."""
+import re, subprocess, os
 root = os.path.dirname(os.path.dirname(os.path.abspath(__file__)))
-for rel in ("lean/Main.lean", "lean/CnvVerif.lean"):
-    p = os.path.join(root, rel)
-    s = open(p).read()
-    if "<<<<<<<" not in s:
-        continue
+
+
+def show(rev, rel):
+    return subprocess.check_output(["git", "-C", root, "show", f"{rev}:{rel}"], text=True)
+
+
+def handlers(s):
+    m = re.search(r"^  \[(handleInterval.*?)\]\s*$", s, flags=re.M | re.S)
+    return m, [x.strip() for x in m.group(1).replace("\n", " ").split(",") if x.strip()]
+
+
+p = os.path.join(root, "lean/Main.lean")
+s = open(p).read()
+if "<<<<<<<" in s or os.path.exists(os.path.join(root, ".git", "MERGE_HEAD")):
+    ours, theirs = show("HEAD", "lean/Main.lean"), show("MERGE_HEAD", "lean/Main.lean")
+    oi = [l for l in ours.splitlines() if l.startswith("import ")]
+    ti = [l for l in theirs.splitlines() if l.startswith("import ") and l not in oi]
+    m, oh = handlers(ours)
+    _, thh = handlers(theirs)
+    new_list = "  [" + ", ".join(oh + [h for h in thh if h not in oh]) + "]"
+    out = ours[:m.start()] + new_list + ours[m.end():]
+    last = oi[-1]
+    out = out.replace(last + "\n", last + "\n" + "".join(l + "\n" for l in ti), 1)
+    open(p, "w").write(out)
+    print("resolved lean/Main.lean (+%d imports, +%d handlers)" % (len(ti), len([h for h in thh if h not in oh])))
+p = os.path.join(root, "lean/CnvVerif.lean")
+s = open(p).read()
+if "<<<<<<<" in s:
     def fix(m):
-        ours, theirs = m.group(1), m.group(2)
-        if ours.strip().startswith("["):
-            a = [x.strip() for x in ours.strip()[1:-1].split(",")]
-            b = [x.strip() for x in theirs.strip()[1:-1].split(",")]
-            return "  [" + ", ".join(a + [x for x in b if x not in a]) + "]\n"
-        al = ours.splitlines(); bl = theirs.splitlines()
+        al, bl = m.group(1).splitlines(), m.group(2).splitlines()
         return "\n".join(al + [x for x in bl if x not in al]) + "\n"
-    s2 = re.sub(r"<<<<<<< [^\n]*\n(.*?)=======\n(.*?)>>>>>>> [^\n]*\n", fix, s, flags=re.S)
-    open(p, "w").write(s2)
-    print("resolved", rel)
+    s = re.sub(r"<<<<<<< [^\n]*\n(.*?)=======\n(.*?)>>>>>>> [^\n]*\n", fix, s, flags=re.S)
+    open(p, "w").write(s)
+    print("resolved lean/CnvVerif.lean")
